@@ -213,6 +213,69 @@ fn check_weighted<W: Copy + PartialEq + std::fmt::Debug>(
     o.eq("arcs_weighted", &aw, &m.arc_list_w());
 }
 
+/// A user-defined representation that implements only the REQUIRED methods
+/// of the operation traits, so that every provided method and blanket
+/// implementation of the library runs on its own definition.
+struct User(Model);
+
+impl Vertices for User {
+    fn vertices(&self) -> impl Iterator<Item = usize> {
+        self.0.verts.iter().copied()
+    }
+}
+
+impl Arcs for User {
+    fn arcs(&self) -> impl Iterator<Item = (usize, usize)> {
+        self.0.arcs.keys().copied()
+    }
+}
+
+impl HasArc for User {
+    fn has_arc(&self, u: usize, v: usize) -> bool {
+        self.0.has(u, v)
+    }
+}
+
+impl Indegree for User {
+    fn indegree(&self, v: usize) -> usize {
+        self.0.indeg(v)
+    }
+}
+
+impl Outdegree for User {
+    fn outdegree(&self, u: usize) -> usize {
+        self.0.outdeg(u)
+    }
+}
+
+fn check_user(m: &Model, o: &mut CaseOut) {
+    let d = User(m.clone());
+    let t = tables(m);
+    let vs = m.vert_list();
+    let (mut indeg, mut outdeg) = (vec![], vec![]);
+    for &v in &vs {
+        let (i, k) = (t.inn[&v].len(), t.out[&v].len());
+        indeg.push(i);
+        outdeg.push(k);
+        o.eq("user-type:is_source", &d.is_source(v), &(i == 0));
+        o.eq("user-type:is_sink", &d.is_sink(v), &(k == 0));
+        o.eq("user-type:degree", &d.degree(v), &(i + k));
+        o.eq("user-type:is_isolated", &d.is_isolated(v), &(i + k == 0));
+        o.eq("user-type:is_pendant", &d.is_pendant(v), &(i + k == 1));
+    }
+    let deg: Vec<usize> = indeg.iter().zip(&outdeg).map(|(a, b)| a + b).collect();
+    o.eq("user-type:sinks", &d.sinks().collect::<Vec<_>>(), &vs.iter().copied().filter(|v| t.out[v].is_empty()).collect::<Vec<_>>());
+    o.eq("user-type:sources", &d.sources().collect::<Vec<_>>(), &vs.iter().copied().filter(|v| t.inn[v].is_empty()).collect::<Vec<_>>());
+    o.eq("user-type:outdegree_sequence", &d.outdegree_sequence().collect::<Vec<_>>(), &outdeg);
+    o.eq("user-type:semidegree_sequence", &d.semidegree_sequence().collect::<Vec<_>>(), &indeg.iter().copied().zip(outdeg.iter().copied()).collect::<Vec<_>>());
+    o.eq("user-type:max_degree", &d.max_degree(), deg.iter().max().unwrap());
+    o.eq("user-type:min_degree", &d.min_degree(), deg.iter().min().unwrap());
+    o.eq("user-type:max_indegree", &d.max_indegree(), indeg.iter().max().unwrap());
+    o.eq("user-type:min_indegree", &d.min_indegree(), indeg.iter().min().unwrap());
+    o.eq("user-type:max_outdegree", &d.max_outdegree(), outdeg.iter().max().unwrap());
+    o.eq("user-type:min_outdegree", &d.min_outdegree(), outdeg.iter().min().unwrap());
+}
+
 pub fn case(idx: u64, seed: u64, p: &Params, o: &mut CaseOut) {
     let mut r = Rng::for_case(2, seed, idx);
     let max = p.usize("max_order", 130);
@@ -223,7 +286,9 @@ pub fn case(idx: u64, seed: u64, p: &Params, o: &mut CaseOut) {
     let nwalks = p.usize("walks", 40);
     let tyname = match ty {
         0 => {
-            check_queries(&AdjacencyList::build(&m), &m, o, &mut r, nwalks);
+            let d = AdjacencyList::build(&m);
+            check_queries(&d, &m, o, &mut r, nwalks);
+            o.eq("contiguous_order", &d.contiguous_order(), &m.n());
             "AdjacencyList"
         }
         1 => {
@@ -231,11 +296,15 @@ pub fn case(idx: u64, seed: u64, p: &Params, o: &mut CaseOut) {
             "AdjacencyMap"
         }
         2 => {
-            check_queries(&AdjacencyMatrix::build(&m), &m, o, &mut r, nwalks);
+            let d = AdjacencyMatrix::build(&m);
+            check_queries(&d, &m, o, &mut r, nwalks);
+            o.eq("contiguous_order", &d.contiguous_order(), &m.n());
             "AdjacencyMatrix"
         }
         3 => {
-            check_queries(&EdgeList::build(&m), &m, o, &mut r, nwalks);
+            let d = EdgeList::build(&m);
+            check_queries(&d, &m, o, &mut r, nwalks);
+            o.eq("contiguous_order", &d.contiguous_order(), &m.n());
             "EdgeList"
         }
         4 => {
@@ -258,6 +327,10 @@ pub fn case(idx: u64, seed: u64, p: &Params, o: &mut CaseOut) {
             "AdjacencyMap(non-contiguous)"
         }
     };
+    if idx % 16 == 5 && m.n() <= 40 {
+        check_user(&m, o);
+        o.bump("user-defined type (provided methods and blanket impls)");
+    }
     let mut fp = Fp::new();
     fp.s(tyname);
     m.fingerprint(&mut fp);
